@@ -83,6 +83,24 @@ def run(ctx):
                                 g = True
                     ok = ok and g
             ctx.ob('2o %s-only-when-source-exhausted' % fld, 'K3-guard', rx.path, 'the batch asks for the drop only when the walk position equals total_chunks of the source table', ok, det)
+    # the progress counter describes the table at the FRONT of the reindex queue: it is reset whenever the front changes
+    poppers = lib.calls_on_field(F, ['std::collections::VecDeque::<T, A>::pop_front', 're:VecDeque.*::(pop_back|remove|drain|clear|swap_remove.*|push_front|insert|rotate.*)$'], '.Reindex.queue')
+    pb = sorted(set(b.path for b, _ in poppers))
+    ctx.ob('2p front-changers', 'K4-confinement', ','.join(pb), 'the front of the reindex queue changes only in drop_index / drop_ref_count (entries are appended at the back)',
+           set(pb) == {'column::HashColumn::drop_index', 'column::HashColumn::drop_ref_count'}, str(pb))
+    for b, site in poppers:
+        rs = [bi for bi, t in b.calls() if call_matches(t, lib.ATOMIC_STORE) and '.Reindex.progress' in lib.receiver_fields(b, t, 0) and len(t['a']) > 1 and t['a'][1].get('i') == 0]
+        w = b.find_path([0], b.return_blocks(), removed=set(rs) | core.error_exit_blocks(b) - {site}) if False else None
+        # every path entry -> pop_front -> Ok return passes a progress.store(0)
+        before = b.find_path([0], {site}, removed=set(rs))
+        after = b.find_path(list(b.succ(site)), b.return_blocks(), removed=set(rs) | core.error_exit_blocks(b))
+        ok = bool(rs) and (before is None or after is None)
+        ctx.ob('2q progress-reset-when-front-changes %s' % b.path, 'K1-must-pass', b.path,
+               'whenever the front table of the reindex queue is removed, the batch progress counter is reset to 0 in the same function (else the next queued table is walked from the old position and its first chunks are never migrated)', ok,
+               'no progress.store(0)' if not rs else 'a path pops the front without resetting progress', b.loc(site))
+        lib.held_at(ctx, '2r front-change-under-reindex-write-lock %s' % b.path, b, site, '.HashColumn.reindex', 'the queue front is changed with the reindex write guard held', mode='write')
+    # nobody else resets progress to 0 (a reset while the front table is half walked restarts it: harmless; but a reset
+    # coupled to growth instead of completion is exactly the defect above) - informational only
     # 3. growth swap
     for fn, fld in (('column::HashColumn::trigger_reindex', '.Tables.index'), ('column::HashColumn::trigger_ref_count_reindex', '.Tables.ref_count')):
         b = ctx.body(fn)
